@@ -277,6 +277,21 @@ func TestCheck(t *testing.T) {
 		return
 	}
 	if rep.ReplayPath() != "" {
+		var sr StopReplay
+		if err := rep.LoadReplay(&sr); err == nil && sr.Batch != "" {
+			if p := runBatchStop(t, batchStopScripts[sr.Batch]); p != "" {
+				r.Violation(strings.SplitN(p, ":", 2)[0]+":"+sr.Batch, p, sr)
+			}
+			r.Add("evaluations", 1)
+			return
+		}
+		if err := rep.LoadReplay(&sr); err == nil && sr.Stop != nil {
+			for _, p := range runStopCase(t, *sr.Stop) {
+				r.Violation(strings.SplitN(p, ":", 2)[0]+":"+sr.Stop.Name, p, sr)
+			}
+			r.Add("evaluations", 1)
+			return
+		}
 		var rp Replay
 		if err := rep.LoadReplay(&rp); err != nil {
 			t.Fatal(err)
@@ -295,6 +310,9 @@ func TestCheck(t *testing.T) {
 		}
 		r.Add("evaluations", 1)
 		return
+	}
+	if i, _ := rep.Shard(); i == 0 {
+		stopPart(t, r)
 	}
 	shard, nshards := rep.Shard()
 	bound := 1
